@@ -218,6 +218,17 @@ func init() {
 					}
 				}
 			}
+			// short symbolic editing sequences with undo/redo freely mixed (multi-step crashes)
+			seqLen := 4
+			if tier == "thorough" {
+				seqLen = 5
+			}
+			{
+				j := mkJob(".ZZ_C07_Undo", shellSetup, "s", itoa(seqLen), "variant", "crash")
+				j.Stubs = paintStubs
+				j.Reach = []string{"steps-done"}
+				jobs = append(jobs, j)
+			}
 			// symbolic key bytes after context-opening prefixes, with input faults
 			keyJob := func(mode, pre string, k, n int, end string, split bool) {
 				kv := []string{"mode", mode, "pre", pre, "k", itoa(k), "n", itoa(n), "end", end}
@@ -721,6 +732,43 @@ func init() {
 		Stubs:  []string{"tty ioctls", "stdin = zzverif.Script", "stdout discarded"},
 		Bounds: map[string]string{"quick": "tables of <= 2 sequences of length <= 2, m <= 3 keys", "thorough": "tables of <= 3 sequences of length <= 3, m <= 4 keys"},
 		Rule:   "one state per completed symbolic path (a path = a class of tables and key strings)",
+		IgnoreKinds: []string{"panic", "hang", "deadlock", "spin"},
+	}
+}
+
+func init() {
+	checks["C15"] = &CheckDef{
+		ID: "C15",
+		Jobs: func(tier string, p *Program) []*Job {
+			var jobs []*Job
+			ns := []int{1, 2, 3, 5}
+			if tier == "thorough" {
+				ns = []int{1, 2, 3, 4, 5, 7, 9, 12}
+			}
+			for _, n := range ns {
+				for _, structure := range []string{"plain", "described", "aliased", "tags"} {
+					for _, dir := range []string{"fwd", "bwd"} {
+						for _, lens := range []string{"1", "172"} {
+							if lens != "1" && n < 3 {
+								continue
+							}
+							j := mkJob(".ZZ_C15_Cycle", shellSetup, "n", itoa(n), "lens", lens, "structure", structure, "dir", dir)
+							j.Reach = []string{"cycled"}
+							jobs = append(jobs, j)
+						}
+					}
+				}
+			}
+			return jobs
+		},
+		Assumptions: []string{
+			"the application completer returns n distinct candidates (lengths following a per-job pattern; plain, described, sharing descriptions two by two, or split over two tags); terminal width (1..100) and height (2..40) are symbolic and reach the library through the winsize ioctl stub",
+			"menu-complete / menu-complete-backward are typed n+1 times through probe bindings in a real Readline call; the inserted word is read from the buffer at each input wait",
+			"the display engine runs unstubbed (the completion grid is built and printed for real; output is discarded); the terminal answers cursor-position queries with ESC[1;1R",
+		},
+		Stubs:  []string{"tty ioctls (symbolic window size)", "stdin = zzverif.Script", "stdout discarded", "uniseg.StringWidth native on concrete text"},
+		Bounds: map[string]string{"quick": "n in {1,2,3,5} candidates, two length patterns, width <= 100, height <= 40", "thorough": "n up to 12"},
+		Rule:   "one state per completed symbolic path (a path = one class of terminal sizes producing the same grid shape)",
 		IgnoreKinds: []string{"panic", "hang", "deadlock", "spin"},
 	}
 }
